@@ -469,10 +469,22 @@ var tokenSels = []string{"znn", "qsr", "custom", "none", "locked", "bridge-owned
 func tokenSelsFor(c *contractDef, method string) []string {
 	if c.Name == "bridge" && method == "WrapToken" {
 		// tokens with a pair on the base state's network: ZNN (not owned), the foreign token flagged Owned, the bridge's own
-		return []string{"znn", "locked", "bridge-owned", "qsr", "custom", "none"}
+		return []string{"znn", "locked", "bridge-owned-full-fee", "bridge-owned", "qsr", "custom", "none"}
 	}
 	if _, zts := requiredAmount(c, method); zts == qsr {
 		return []string{"qsr", "znn", "custom", "none", "locked", "bridge-owned"}
 	}
 	return tokenSels
+}
+
+// nTokensFor: how many of the method's token selectors a tier with a cut of n uses (WrapToken: the four tokens with a pair)
+func nTokensFor(c *contractDef, method string, n int) int {
+	k := len(tokenSelsFor(c, method))
+	if c.Name == "bridge" && method == "WrapToken" && n < 4 {
+		n = 4
+	}
+	if n > k {
+		n = k
+	}
+	return n
 }
